@@ -12,14 +12,13 @@ open Storrent
 
 def isDigit (b : UInt8) : Bool := 48 ≤ b && b ≤ 57
 
-/-- decimal digits of `n`, most significant first, as ASCII bytes -/
-def natDigitsAux : Nat → Nat → Bytes → Bytes
-  | 0, _, acc => acc
-  | fuel+1, n, acc =>
-    let acc' := UInt8.ofNat (48 + n % 10) :: acc
-    if n < 10 then acc' else natDigitsAux fuel (n / 10) acc'
+def dig (n : Nat) : UInt8 := UInt8.ofNat (48 + n % 10)
 
-def natDigits (n : Nat) : Bytes := natDigitsAux (n + 1) n []
+/-- decimal digits of `n`, most significant first, as ASCII bytes -/
+def natDigits (n : Nat) : Bytes :=
+  if _h : n < 10 then [dig n] else natDigits (n / 10) ++ [dig n]
+termination_by n
+decreasing_by omega
 
 def encInt (i : Int) : Bytes :=
   [105] ++ (if i < 0 then [45] ++ natDigits i.natAbs else natDigits i.toNat) ++ [101]
@@ -147,6 +146,7 @@ def encBV : BV → Bytes
 def encDict (d : List (Bytes × BV)) : Bytes :=
   [100] ++ (d.map (fun kv => encStr kv.1 ++ encBV kv.2)).flatten ++ [101]
 
-def strBytes (s : String) : Bytes := s.toUTF8.toList
+/-- ASCII key names as bytes (kernel-reducible, unlike `String.toUTF8`) -/
+def strBytes (s : String) : Bytes := s.toList.map (fun c => UInt8.ofNat c.toNat)
 
 end Storrent.Bencode
